@@ -20,6 +20,8 @@ def run_c07(tier):
                 if r["kind"] == "finding" and r["prop"] in ("*", prop):
                     r["prop"] = prop
                     r["variant"] = variant
+                    if "src/" in r.get("site", ""):
+                        r["site"] = r["site"][r["site"].index("src/"):]       # relative to the repository
                     findings.append(r)
             if summ.get("hang"):
                 summ.update({"universe": u, "states": 0, "proofs": 0, "explain_panics": 0, "histories_aborted_by_build_panics": 0})
@@ -67,6 +69,6 @@ def run_c07(tier):
                    "justification, conclusion = query up to injective renaming); non-trivial = transitivity and congruence nodes" % maxpairs,
            "exhaustive": False, "proof_rules_seen": rules_seen, "recorder": summs, "tlc_trace": tstats,
            "histories_aborted_by_build_panics": sum(s["histories_aborted_by_build_panics"] for s in summs)}
-    finish(prop, tier, t0, findings, cov, triggers={}, assumptions=[
+    finish(prop, tier, t0, findings, cov, triggers={"explanations_and_checks_build": lambda f: f.get("variant") == "expl+checks"}, assumptions=[
         "terms of proof nodes are obtained with the public get_syn_expr; histories that panic while being built (D1/D2) are attributed to C08",
         "leaves from rule applications are not exercised yet (justified unions only)"])
